@@ -533,11 +533,24 @@ def run(ctx, modules: Tuple[str, ...]) -> None:
             if d25 is not None:
                 dflt25[k25.arg] = d25
         opt25 = {p_ for p_, d_ in dflt25.items() if isinstance(d_, ast.Constant) and d_.value is None}
+        defs25 = D.definitions(f) if opt25 else {}
+
+        def _mentions25(e: ast.AST, pname: str, depth: int) -> bool:
+            """e is computed from the parameter itself (directly or through locals, e.g. an inlined helper's copy of it)."""
+            for x in ast.walk(e):
+                if isinstance(x, ast.Name):
+                    if x.id == pname:
+                        return True
+                    if depth < 4:
+                        for d in defs25.get(x.id, []):
+                            if d[1] is not None and d[1] is not e and _mentions25(d[1], pname, depth + 1):
+                                return True
+            return False
         for st in walk_local(f):
             if not isinstance(st, ast.Assign):
                 continue
             for t in st.targets:
-                if isinstance(t, ast.Name) and t.id in opt25 and not any(isinstance(x, ast.Name) and x.id == t.id for x in ast.walk(st.value)):
+                if isinstance(t, ast.Name) and t.id in opt25 and not _mentions25(st.value, t.id, 0):
                     gs25 = {(norm(e), p_) for e, p_ in C.flatten_guards(C.guards(f, st))}
                     if (f"{t.id} is None", True) in gs25 or (f"{t.id} is not None", False) in gs25 or (f"not {t.id}", True) in gs25 or (t.id, False) in gs25:
                         continue
